@@ -15,7 +15,6 @@ structure HInvC (U : Map Blk) (s : HSt) (hb : Blk) (C : List Blk) : Prop where
   tdIntr : ∀ k t, s.td k = some t →
     ∃ x l, U k = some x ∧ Path U x l s.genesis ∧ t = s.genesis.diff + diffSum l
   storeTd : ∀ k x, s.store k = some x → (s.td k).isSome = true
-  tdStored : ∀ k t, s.td k = some t → (s.store k).isSome = true
   genNum : s.genesis.number = 0
 
 def HInv (U : Map Blk) (s : HSt) : Prop := ∃ hb C, HInvC U s hb C
@@ -153,7 +152,7 @@ end HInvC
 theorem hinvC_init {U : Map Blk} (g : Blk) (hgU : U g.id = some g) (hg0 : g.number = 0) : HInvC U (hinit g) g [] := by
   refine
     { sub := ?_, headStored := by simp [hinit], path := .nil _, canon := ?_, tdIntr := ?_, storeTd := ?_,
-      tdStored := ?_, genNum := hg0 }
+      genNum := hg0 }
   · intro k x hx
     simp only [hinit] at hx
     by_cases hk : k = g.id
@@ -180,11 +179,6 @@ theorem hinvC_init {U : Map Blk} (g : Blk) (hgU : U g.id = some g) (hg0 : g.numb
     by_cases hkg : k = g.id
     · subst hkg; simp
     · rw [upd_other _ _ _ _ hkg] at hx; cases hx
-  · intro k t hk
-    simp only [hinit] at hk ⊢
-    by_cases hkg : k = g.id
-    · subst hkg; simp
-    · rw [upd_other _ _ _ _ hkg] at hk; cases hk
 
 theorem hmax_init (g : Blk) : HMax (hinit g) := by
   intro k t hk
@@ -354,11 +348,6 @@ theorem hinv_writeHeader {U : Map Blk} (W : World U) {s : HSt} (hI : HInv U s) {
         by_cases hk : k = h.id
         · subst hk; simp
         · rw [upd_other _ _ _ _ hk] at hx ⊢; exact hI.storeTd k x hx
-      have htds' : ∀ k t, upd s.td h.id (some (ptd + h.diff)) k = some t → (upd s.store h.id (some h) k).isSome = true := by
-        intro k t hk
-        by_cases hkh : k = h.id
-        · subst hkh; simp
-        · rw [upd_other _ _ _ _ hkh] at hk ⊢; exact hI.tdStored k t hk
       by_cases hdec : (decide (ptd + h.diff > localTd) || (ptd + h.diff == localTd && coin)) = true
       · simp only [hdec, if_true]
         have hge : localTd ≤ ptd + h.diff := by
@@ -375,7 +364,7 @@ theorem hinv_writeHeader {U : Map Blk} (W : World U) {s : HSt} (hI : HInv U s) {
             simp only [Bool.not_false, if_true]
             exact ⟨⟨hb, C,
               { sub := hsub', headStored := hext _ _ hI.headStored, path := hI.path.mono hext, canon := hI.canon,
-                tdIntr := htdI, storeTd := hstd', tdStored := htds', genNum := hI.genNum }⟩, by simp,
+                tdIntr := htdI, storeTd := hstd', genNum := hI.genNum }⟩, by simp,
               (fun he => by cases he),
               fun th hth => ⟨th, by cases hth; exact htd_upd_same W hI hhU hpar hptd hlt, Nat.le_refl _⟩⟩
           | true =>
@@ -450,7 +439,7 @@ theorem hinv_writeHeader {U : Map Blk} (W : World U) {s : HSt} (hI : HInv U s) {
               have hNpath : Path (upd s.store h.id (some h)) h (h :: l) z := .cons hparx hpath
               refine ⟨⟨h, (h :: l) ++ R,
                 { sub := hsub', headStored := by simp, path := hNpath.append (hR.mono hext), canon := ?_,
-                  tdIntr := htdI, storeTd := hstd', tdStored := htds', genNum := hI.genNum }⟩, by simp, fun _ hmax => ?_,
+                  tdIntr := htdI, storeTd := hstd', genNum := hI.genNum }⟩, by simp, fun _ hmax => ?_,
                 fun th hth => ⟨ptd + h.diff, by simp, by cases hth; exact hge⟩⟩
               · -- the number index is the new chain
                 intro n i
@@ -519,7 +508,7 @@ theorem hinv_writeHeader {U : Map Blk} (W : World U) {s : HSt} (hI : HInv U s) {
           omega
         refine ⟨⟨hb, C,
           { sub := hsub', headStored := hext _ _ hI.headStored, path := hI.path.mono hext, canon := hI.canon,
-            tdIntr := htdI, storeTd := hstd', tdStored := htds', genNum := hI.genNum }⟩, by simp, fun _ hmax => ?_,
+            tdIntr := htdI, storeTd := hstd', genNum := hI.genNum }⟩, by simp, fun _ hmax => ?_,
           fun th hth => ⟨th, by cases hth; exact htd_upd_same W hI hhU hpar hptd hlt, Nat.le_refl _⟩⟩
         intro k' t hk'
         simp only at hk' ⊢
@@ -547,16 +536,40 @@ structure HStep (U : Map Blk) (s s' : HSt) (e : Option Err) : Prop where
   max : e = none → HMax s → HMax s'
   mono : ∀ th, s.td s.hhead = some th → ∃ th', s'.td s'.hhead = some th' ∧ th ≤ th'
   noPanic : e ≠ some .modelPanic
+  gen : s'.genesis = s.genesis
 
 theorem HStep.refl {U : Map Blk} {s : HSt} (h : HInv U s) {e : Option Err} (he : e ≠ some .modelPanic) : HStep U s s e :=
-  ⟨h, fun _ _ hx => hx, fun _ => id, fun th hth => ⟨th, hth, Nat.le_refl _⟩, he⟩
+  ⟨h, fun _ _ hx => hx, fun _ => id, fun th hth => ⟨th, hth, Nat.le_refl _⟩, he, rfl⟩
 
 theorem HStep.trans {U : Map Blk} {s s' s'' : HSt} {e : Option Err} (h1 : HStep U s s' none) (h2 : HStep U s' s'' e) :
     HStep U s s'' e :=
   ⟨h2.inv, fun k x hx => h2.ext _ _ (h1.ext _ _ hx), fun he hm => h2.max he (h1.max rfl hm), fun th hth => by
     obtain ⟨th', hth', hle⟩ := h1.mono th hth
     obtain ⟨th'', hth'', hle'⟩ := h2.mono th' hth'
-    exact ⟨th'', hth'', by omega⟩, h2.noPanic⟩
+    exact ⟨th'', hth'', by omega⟩, h2.noPanic, by rw [h2.gen, h1.gen]⟩
+
+theorem writeHeader_gen (s : HSt) (h : Blk) (coin : Bool) : (writeHeader s h coin).st.genesis = s.genesis := by
+  unfold writeHeader
+  cases s.td h.parent with
+  | none => rfl
+  | some ptd =>
+    simp only
+    cases s.store s.hhead with
+    | none => rfl
+    | some cur =>
+      cases s.td s.hhead with
+      | none => rfl
+      | some localTd =>
+        simp only
+        split
+        · cases h.number with
+          | zero => rfl
+          | succ k =>
+            simp only
+            split
+            · rfl
+            · split <;> rfl
+        · rfl
 
 theorem writeHeader_ext {U : Map Blk} {s : HSt} (hI : HInv U s) {h : Blk} (hhU : U h.id = some h) (coin : Bool) :
     StoreExt s.store (writeHeader s h coin).st.store := by
@@ -674,7 +687,7 @@ theorem hstep_writeHeader {U : Map Blk} (W : World U) {s : HSt} (hI : HInv U s) 
     (hpar : parentOf s.store h = some p) (coin : Bool) :
     HStep U s (writeHeader s h coin).st (writeHeader s h coin).err := by
   obtain ⟨h1, h2, h3, h4⟩ := hinv_writeHeader W hI hhU hpar coin
-  exact ⟨h1, writeHeader_ext hI hhU coin, h3, h4, h2⟩
+  exact ⟨h1, writeHeader_ext hI hhU coin, h3, h4, h2, writeHeader_gen s h coin⟩
 
 theorem hstep_insertSeq {U : Map Blk} (W : World U) : ∀ (l : List Blk) (s : HSt) (coins : List Bool) (i : Nat),
     HInv U s → (∀ h ∈ l, U h.id = some h) → isContig l = true →
@@ -862,7 +875,7 @@ theorem hinv_setHead {U : Map Blk} (W : World U) {s : HSt} (h : HInv U s) (n : N
     simp only [Option.getD_some]
     refine ⟨hb, C,
       { sub := h.sub, headStored := hstored, path := h.path, canon := ?_, tdIntr := h.tdIntr, storeTd := h.storeTd,
-        tdStored := h.tdStored, genNum := h.genNum }⟩
+        genNum := h.genNum }⟩
     intro k i
     simp only
     rw [delCanonRange_apply, if_neg (by omega)]
@@ -902,7 +915,7 @@ theorem hinv_setHead {U : Map Blk} (W : World U) {s : HSt} (h : HInv U s) (n : N
       · rw [h1]; simp
     have hc' : s'.store c.id = some c := by rw [(hkeep _ (hRnot c hcR)).1]; exact hcstored
     refine ⟨c, R,
-      { sub := ?_, headStored := hc', path := ?_, canon := ?_, tdIntr := ?_, storeTd := ?_, tdStored := ?_,
+      { sub := ?_, headStored := hc', path := ?_, canon := ?_, tdIntr := ?_, storeTd := ?_,
         genNum := by simp only [hgen]; exact h.genNum }⟩
     · intro k x hx
       simp only at hx
@@ -953,13 +966,6 @@ theorem hinv_setHead {U : Map Blk} (W : World U) {s : HSt} (h : HInv U s) (n : N
       · rw [(hkeep k hko).1] at hx
         rw [(hkeep k hko).2]
         exact h.storeTd k x hx
-    · intro k t hk
-      simp only at hk ⊢
-      by_cases hko : ∃ y ∈ O, y.id = k
-      · rw [(hrm k hko).2] at hk; cases hk
-      · rw [(hkeep k hko).2] at hk
-        rw [(hkeep k hko).1]
-        exact h.tdStored k t hk
 
 /-- the invariant implies C03 as stated, for the header chain -/
 theorem hspec_of_inv {U : Map Blk} (W : World U) {s : HSt} (h : HInv U s) : HSpecInv s := by
